@@ -80,4 +80,24 @@ DecompVector(w, enz) ==
           THEN [ok |-> TRUE, up |-> Sticky(w, enz, a), down |-> Sticky(w, enz, b),
                 tgt |-> Between(w, a, b), ph |-> Between(w, b, a), cutA |-> a, cutB |-> b]
           ELSE [ok |-> FALSE]
+\* A destination vector of a kit whose BACKBONE was never domesticated: the hand-written structures of the kit vectors are
+\* anchored on the next-level sites and do not cover the backbone, so a further site of the vector's own enzyme there is legal
+\* for those classes (not for the signature-free vector class, whose structure covers the whole plasmid).  The reverse site and
+\* the forward site that have only the placeholder between them open the vector.
+DecompVectorLoose(w, enz) ==
+  LET F == FwdSites(w, enz)  R == RevSites(w, enz)  n == Len(w)  L == Len(enz.site)
+      Adj(q, p) == LET dp == (p - q) % n IN dp >= L /\ \A x \in (F \cup R) \ {q, p} : (x - q) % n > dp
+      pairs == {qp \in R \X F : Adj(qp[1], qp[2])}
+  IN IF Cardinality(pairs) # 1 THEN [ok |-> FALSE]
+     ELSE LET qp == CHOOSE x \in pairs : TRUE
+              q == qp[1]  p == qp[2]
+              a == FwdCut(w, enz, p)
+              b == RevCut(w, enz, q)
+              dq == (q - b) % n
+              dp == (p - b) % n
+              da == (a - b) % n
+          IN IF dq < dp /\ dp < da /\ dq + L <= dp /\ da + enz.ovh <= n
+             THEN [ok |-> TRUE, up |-> Sticky(w, enz, a), down |-> Sticky(w, enz, b),
+                   tgt |-> Between(w, a, b), ph |-> Between(w, b, a), cutA |-> a, cutB |-> b]
+             ELSE [ok |-> FALSE]
 =============================================================================
